@@ -162,7 +162,11 @@ func Containers() []Named {
 		N("string", "hello"), N("int", 5), N("nil", nil), N("bool", true), N("func", func() int { return 1 }), N("chan", make(chan int)),
 		N("safe-slice", stick.NewSafeValue([]int{1, 2}, "html")),
 		N("OuterVal", OuterVal{Inner{"in", 1}, 2}), N("*OuterVal", &OuterVal{Inner{"pin", 3}, 4}), N("OuterPtr", OuterPtr{&Inner{"ep", 5}, 6}), N("OuterPtr nil-embedded", OuterPtr{nil, 7}), N("*OuterPtr nil-embedded", &OuterPtr{nil, 8}),
-		N("OuterIface", func() OuterIface { n := 9; pn := &n; return OuterIface{Any: []int{1}, PP: &pn, Next: &OuterIface{Any: "leaf"}} }()), N("OuterIface zero", OuterIface{}),
+		N("OuterIface", func() OuterIface {
+			n := 9
+			pn := &n
+			return OuterIface{Any: []int{1}, PP: &pn, Next: &OuterIface{Any: "leaf"}}
+		}()), N("OuterIface zero", OuterIface{}),
 		N("local T #1", localT1()), N("local T #2", localT2()), N("*local T #3", localT3()),
 		N("map[KeyStr]int", map[KeyStr]int{"a": 1, "1": 2, "true": 3, "1.5": 4}), N("map[KeyInt]string", map[KeyInt]string{1: "one", 0: "zero"}), N("map[KeyStr]int nil", map[KeyStr]int(nil)),
 		N("map[KeyStringer]int", map[KeyStringer]int{"a": 1, "<a>": 2}), N("[]OuterIface", []OuterIface{{Any: []int{1}}, {Any: map[string]int{"x": 1}}, {Any: "s"}}), N("[2]OuterIface", [2]OuterIface{{Any: []int{1}}, {Any: []int{1}}}),
